@@ -75,7 +75,7 @@ def calc(r, depth=0):
         if k < 0.75 and depth < 2:
             return '(%s)' % expr()
         if k < 0.85:
-            return 'var(%s)' % r.choice(IDENTS)
+            return 'var(%s)' % r.choice(['zz', 'q9'])   # not defined: a resolved value inside calc() may be no number
         return number(r)
 
     def expr():
